@@ -146,10 +146,52 @@ fn single_tag(i: u64) -> Option<Case> {
     Some(Case { nodes: vec![Node::Text(format!("a{w1}")), node, Node::Text(format!("{w4}b"))] })
 }
 
+/// The one shape excluded from the general raw-body generator (astgen::close_quotes_in_lookalikes),
+/// enumerated: tag-like text with an unterminated quote inside a raw body, a matching quote and a
+/// delimiter end later in the file.  By the statement the body is verbatim and ends at the first
+/// `{% endraw %}`.
+#[derive(Clone, Debug, Serialize, Deserialize)]
+pub struct RawQuote {
+    pub src: String,
+    pub expected: String,
+}
+
+fn raw_quote_cases() -> Vec<RawQuote> {
+    let mut v = Vec::new();
+    for opener in ["{% if x", "{{ ", "{%- assign a = ", "{{ y | append: "] {
+        for q in ['\'', '"'] {
+            for inner in ["", "a b"] {
+                for tail in ["{q}%}", " {q} }}", "x{q} -%} tail", " tail without delimiter {q}", "{q}{q}"] {
+                    let tail = tail.replace("{q}", &q.to_string());
+                    for (open, close) in [("{% raw %}", "{% endraw %}"), ("{%raw%}", "{%endraw%}")] {
+                        let body = format!("{opener}{q}{inner}");
+                        v.push(RawQuote { src: format!("<{open}{body}{close}>{tail}"), expected: format!("<{body}>{tail}") });
+                        v.push(RawQuote { src: format!("{{% if true %}}<{open}{body}{close}>{{% endif %}}{tail}"), expected: format!("<{body}>{tail}") });
+                    }
+                }
+            }
+        }
+    }
+    v
+}
+
+fn raw_quote_oracle(c: &RawQuote, obs: &mut Obs) -> Check {
+    obs.nt(&c.src);
+    let got = lq::with_parser(Conf::Stdlib, |p| lq::run(p, &c.src, &liquid::Object::new()));
+    match got {
+        Err(p) => Err(Failure::new(format!("raw: panics: {}", p.site()), format!("src={:?} {}", c.src, p.what))),
+        Ok(Ok(s)) if s == c.expected => Ok(()),
+        Ok(Ok(s)) => Err(Failure::new("raw: body with a quoted look-alike is not emitted verbatim", format!("src={:?} expected={:?} got={s:?}", c.src, c.expected))),
+        Ok(Err(e)) if e.starts_with("parse:") => Err(Failure::new("raw: a quote inside tag-like text of a raw body is lexed as a string literal running past endraw", format!("src={:?} expected=Ok({:?}) got=Err({})", c.src, c.expected, e.lines().filter(|l| l.contains('=')).collect::<Vec<_>>().join(" ")))),
+        Ok(Err(e)) => Err(Failure::new("raw: render fails for a raw body with a quoted look-alike", format!("src={:?} {e}", c.src))),
+    }
+}
+
 pub fn run(ctx: &Ctx) {
     ctx.set_rule("E1: templates of 1..8 top-level nodes (text segments over full Unicode with 0..4 whitespace/other chars at their edges; outputs, assign, capture, increment, if/unless/case, for/tablerow, break/continue, raw with markup look-alikes, comment with side-effecting bodies), nested <= 3, every delimiter side independently trimmed, 0..3 inner blanks; probes of x,y,z and two counters appended. E2: single tag x 16 marker combinations x whitespace kinds on all four adjacent positions. Oracle: reference interpreter (rule T). Non-trivial = a trim marker actually removes whitespace, or a raw/comment body contains a look-alike; distinct = distinct source.");
     ctx.assume("blank characters other than space, tab, CR, LF are never generated adjacent to a trimmed side (statement lists spaces, tabs, line breaks)");
     ctx.exhaustive("single_tag", 7 * 16 * 7 * 7 * 7 * 7, single_tag, oracle);
     ctx.random("plain", ctx.pick(60_000, 300_000), || gen::plain_text(40).prop_map(|text| Plain { text }), plain_oracle);
+    ctx.cases("raw_quote_across_endraw", raw_quote_cases(), raw_quote_oracle);
     ctx.random("templates", ctx.pick(250_000, 1_500_000), strategy, oracle);
 }
